@@ -75,6 +75,10 @@ def assign_canonical_labels(m: nx.Graph) -> dict[int, int]:
 
 
 def canonicalize_molecule(m: nx.Graph) -> nx.Graph:
+    if m.number_of_nodes() == 0:
+        # The empty molecule (TUCAN string "/") has nothing to partition or relabel.
+        return m.copy()
+
     m_partitioned_by_invariant_code = partition_molecule_by_attribute(m, INVARIANT_CODE)
     m_refined = list(refine_partitions(m_partitioned_by_invariant_code))[-1]
 
